@@ -266,9 +266,129 @@ def emit(info):
     w("  repeat split; try lra; intros; lra.")
     w("Qed.")
     open(os.path.join(OUT, "C13_p_%s.v" % p), "w").write("\n".join(L) + "\n")
+    emit_exact(info, has_corr)
     return {"a": float(a[2]), "y0": float(y0[2]), "J0": float(J0[2]), "P": float(P[2]), "c": float(cval), "h": float(h[2]),
             "Kb": float(Kb), "d": float(d), "corr": has_corr}
 
+
+
+def emit_exact(info, has_corr):
+    """C13_xp_<Planet>.v (thorough tier): perihelion_aphelion with Epoch(x) = the Epoch holding x (C02's theorem)"""
+    p = info["planet"]
+    L = []
+    w = L.append
+    w("(* %s.perihelion_aphelion (thorough tier) -- the closed form without the hypothesis about Epoch(x): the three" % p)
+    w("   instants m - h, m, m + h and the interpolated extremum (assumed inside the window) are in the range of C02's")
+    w("   Epoch_ctor_exact_ideal.  Written by mkperi.py (checked in). *)")
+    w("From Coq Require Import Reals ZArith List Bool Lra Lia String.")
+    w("From Interval Require Import Tactic.")
+    w("From PyLib Require Import PyVal PyBuiltins Ideal Whnf PyEval.")
+    w("From Spec Require Import Finder OrbitFinder.")
+    w("From Gen Require Import M_base M_Angle M_Epoch M_Interpolation M_%s." % p)
+    w("From Proofs.C02 Require Import C02_ctor_ideal.")
+    w("From Proofs.C13 Require Import C13_angle C13_tac2 C13_defs C13_pdefs C13_xp_defs C13_p_%s." % p)
+    w("Import ListNotations.")
+    w("Open Scope R_scope.")
+    w("Ltac2 Set Whnf.is_blocked as old := fun c =>")
+    w("  Ltac2.Bool.or (old c) (Ltac2.List.exist (Ltac2.Constr.equal c)")
+    w("    ['@Epoch_year; '@Epoch___init__; '@%s_geometric_heliocentric_position; '@Interpolation___init__;" % p)
+    w("     '@Interpolation_minmax; '@Angle___init__; '@ifv]).")
+    w("")
+    w("Lemma kappa_mean_range y : -2000 <= y <= 4000 -> 970000 <= mean J0 P c (kappa a y0 y) <= 3200000.")
+    w("Proof. intro Hy. unfold mean, kappa, J0, P, c, a, y0. lit_norm. split; interval. Qed.")
+    cb = "CB" if has_corr else "0"
+    w("Lemma corr_abs b k : Rabs (corr b k) <= %s." % cb)
+    if has_corr:
+        w("Proof. exact (corr_bound b k). Qed.")
+    else:
+        w("Proof. unfold corr. rewrite Rabs_R0. lra. Qed.")
+    w("Lemma m_range k y : -2000 <= y <= 4000 -> Rabs (k - kappa a y0 y) <= 1 / 2 -> forall b,")
+    w("  950000 <= meanc k + corr b k <= 3220000.")
+    w("Proof.")
+    w("  intros Hy Hk b. rewrite mean_spec.")
+    w("  destruct numbers as (Ha & HK & HdP & Hh & Hd & Hkr). pose proof (Hkr y Hy) as Kr.")
+    w("  pose proof (Rabs_inv _ _ Hk) as Hk'.")
+    w("  assert (N : Rabs (mean J0 P c k - mean J0 P c (kappa a y0 y)) <= (P + d) / 2).")
+    w("  { eapply (near_bounds J0 P c Kb d); [eassumption .. | | |]; first [eassumption | lra]. }")
+    w("  pose proof (Rabs_inv _ _ N) as N'. pose proof (Rabs_inv _ _ (corr_abs b k)) as C'.")
+    w("  pose proof (kappa_mean_range y Hy) as M.")
+    w("  assert (Hp : (P + d) / 2 + %s <= 15500) by (unfold P, d%s; lit_norm; lra)." % (cb, ", CB" if has_corr else ""))
+    w("  lra.")
+    w("Qed.")
+    w("Lemma h_small : 0 < h <= 400. Proof. unfold h. lit_norm. lra. Qed.")
+    w("")
+    w("Section Run.")
+    w("  Variables (j y : R) (Lf Bf Rf : R -> R) (F1 F2 F3 F4 : R -> R -> R -> R -> R -> R -> val R)")
+    w("            (MM : R -> R -> R -> R -> R -> R -> R).")
+    w("  Hypothesis Hy : year_is j y.")
+    w("  Hypothesis Hyr : -2000 <= y <= 4000.")
+    w("  Hypothesis HG : helio_is (%s_geometric_heliocentric_position Rops) Lf Bf Rf." % p)
+    w("  Hypothesis HI : interp_is F1 F2 F3 F4 MM.")
+    for b, kf, near in (("true", "kP", "kper_near"), ("false", "kA", "kaph_near")):
+        w("")
+        w("  Lemma exact_%s : in_window Rf MM h (meanc (%s y) + corr %s (%s y)) ->" % (b, kf, b, kf))
+        w("    %s_perihelion_aphelion Rops (VObj cEpoch [VFloat j]) (VBool %s) =" % (p, b))
+        w("    VObj cEpoch [VFloat (sol (fun x => x) Rf MM h (meanc (%s y) + corr %s (%s y)))]." % (kf, b, kf))
+        w("  Proof.")
+        w("    intro Hw. unfold in_window, sol in Hw.")
+        w("    pose proof Hy as Hy'. pose proof HG as HG'. destruct HI as [HI1 HI2].")
+        w("    unfold year_is in Hy'. unfold helio_is, angle_val in HG'.")
+        w("    assert (Hk : Rabs (%s y - kappa a y0 y) <= 1 / 2) by (rewrite %s_spec; apply %s)." % (kf, kf, near))
+        w("    pose proof (m_range (%s y) y Hyr Hk %s) as Mr. pose proof h_small as Hh." % (kf, b))
+        w("    set (m := meanc (%s y) + corr %s (%s y)) in *." % (kf, b, kf))
+        w("    assert (R1 : jde_in_range (m - h)) by (unfold jde_in_range; lra).")
+        w("    assert (R2 : jde_in_range m) by (unfold jde_in_range; lra).")
+        w("    assert (R3 : jde_in_range (m + h)) by (unfold jde_in_range; lra).")
+        w("    assert (R4 : jde_in_range (MM (m - h) m (m + h) (Rf (m - h)) (Rf m) (Rf (m + h)))) by (unfold jde_in_range; lra).")
+        w("    pose proof (Epoch_ctor_exact_ideal _ R1) as E1. pose proof (Epoch_ctor_exact_ideal _ R2) as E2.")
+        w("    pose proof (Epoch_ctor_exact_ideal _ R3) as E3. pose proof (Epoch_ctor_exact_ideal _ R4) as E4.")
+        w("    clear Hy HG HI Hw Mr Hk R1 R2 R3 R4 Hh. subst m.")
+        hyps = []
+        if has_corr:
+            for i, (nm, _, _) in enumerate(info["angles"]):
+                w("    destruct (ang_init_mk (arg_%s (%s y))) as (n%d & Hr%d & Ha%d)." % (nm, kf, i, i, i))
+                hyps.append("Ha%d" % i)
+            w("    unfold %s, %s, a, y0 in %s." % (", ".join("arg_" + nm for nm, _, _ in info["angles"]), kf, ", ".join(hyps)))
+            f = "corrP" if b == "true" else "corrA"
+            # the instants as the evaluation meets them: corr with the reduced angles
+            w("    unfold corr in E1, E2, E3, E4.")
+            for i, (nm, _, _) in enumerate(info["angles"]):
+                args = []
+                for jx, (nm2, _, _) in enumerate(info["angles"]):
+                    if jx == i: continue
+                    if jx < i: args.append("((arg_%s (%s y) - 360 * IZR n%d) * (PI / 180))" % (nm2, kf, jx))
+                    else: args.append("(arg_%s (%s y) * (PI / 180))" % (nm2, kf))
+                w("    rewrite <- (%s_turn_%d %s (arg_%s (%s y)) n%d) in E1, E2, E3, E4." % (f, i, " ".join(args), nm, kf, i))
+            w("    unfold %s, %s in E1, E2, E3, E4." % (f, ", ".join("arg_" + nm for nm, _, _ in info["angles"])))
+            w("    unfold meanc, %s, a, y0, J0, P, h in E1, E2, E3, E4." % kf)
+        else:
+            w("    unfold corr in E1, E2, E3, E4. rewrite !Rplus_0_r in E1, E2, E3, E4.")
+            w("    unfold meanc, %s, a, y0, J0, P, h in E1, E2, E3, E4." % kf)
+        w("    pyrun2.")
+        w("    unfold sol, corr.")
+        if not has_corr:
+            w("    rewrite !Rplus_0_r.")
+            w("    unfold meanc, %s, a, y0, J0, P, h. reflexivity." % kf)
+        else:
+            for i, (nm, _, _) in enumerate(info["angles"]):
+                args = []
+                for jx, (nm2, _, _) in enumerate(info["angles"]):
+                    if jx == i: continue
+                    if jx < i: args.append("((arg_%s (%s y) - 360 * IZR n%d) * (PI / 180))" % (nm2, kf, jx))
+                    else: args.append("(arg_%s (%s y) * (PI / 180))" % (nm2, kf))
+                w("    rewrite <- (%s_turn_%d %s (arg_%s (%s y)) n%d)." % (f, i, " ".join(args), nm, kf, i))
+            w("    unfold %s, %s." % (f, ", ".join("arg_" + nm for nm, _, _ in info["angles"])))
+            w("    unfold meanc, %s, a, y0, J0, P, h. reflexivity." % kf)
+        w("  Qed.")
+    w("End Run.")
+    w("")
+    w("Theorem exact : peri_exact (%s_perihelion_aphelion Rops) (%s_geometric_heliocentric_position Rops) J0 P c a y0 h corr." % (p, p))
+    w("Proof.")
+    w("  intros j y Lf Bf Rf F1 F2 F3 F4 MM Hy Hyr HG HI. split; intro Hw.")
+    w("  - rewrite <- kP_spec, <- mean_spec in *. exact (exact_true j y Lf Bf Rf F1 F2 F3 F4 MM Hy Hyr HG HI Hw).")
+    w("  - rewrite <- kA_spec, <- mean_spec in *. exact (exact_false j y Lf Bf Rf F1 F2 F3 F4 MM Hy Hyr HG HI Hw).")
+    w("Qed.")
+    open(os.path.join(OUT, "C13_xp_%s.v" % p), "w").write("\n".join(L) + "\n")
 
 if __name__ == "__main__":
     table = {}
